@@ -37,3 +37,56 @@ void h_verify_sweep(void)
 	VG_P("C12", vg_other_crc_calls == 0, "no checksum is computed over anything but a block's stored bytes");
 	VG_P("C18", vg_maps == 0 || !ok, "the mapping is released");
 }
+
+/* ======================================================================= verify_file: wiring of the whole check.
+ * The reader is a stub with the reader's own contract (groups c19_reader_open / rd_*): opened with verify_checksums it stops the
+ * process when the index block's checksum does not match; without the option it opens the file regardless.  verify_data_blocks
+ * runs for real over the same symbolic file model. */
+#include <stdarg.h>
+struct mtbl_reader { int d; }; struct mtbl_reader_options { _Bool verify; };
+static struct mtbl_reader vg_reader; static struct mtbl_reader_options vg_ropt; static struct mtbl_metadata *vg_meta;
+static _Bool vg_index_bad, vg_open_fails, vg_reader_refuses; static unsigned vg_reader_live, vg_ok_prints, vg_failed_prints; static int vg_fd, vg_fds;
+int open(const char *p, int fl, ...) { if (vg_open_fails) return -1; vg_fds++; return vg_fd; }
+int close(int fd) { vg_fds--; return 0; }
+struct mtbl_reader_options *mtbl_reader_options_init(void) { vg_ropt.verify = 0; return &vg_ropt; }
+void mtbl_reader_options_set_verify_checksums(struct mtbl_reader_options *o, bool v) { o->verify = v; }
+void mtbl_reader_options_destroy(struct mtbl_reader_options **o) { *o = NULL; }
+struct mtbl_reader *mtbl_reader_init_fd(int fd, const struct mtbl_reader_options *o)
+{
+	VG_P("C12", fd == vg_fd, "the reader is opened on the file being verified");
+	if (vg_reader_refuses) return NULL;
+	if (o != NULL && o->verify && vg_index_bad) { VG_L(0, "reader with verify_checksums stops the process on a damaged index block"); __CPROVER_assume(0); }
+	vg_reader_live++; return &vg_reader;
+}
+void mtbl_reader_destroy(struct mtbl_reader **r) { if (*r) { vg_reader_live--; *r = NULL; } }
+struct vg_md { uint64_t index_block_offset, bytes_data_blocks, count_data_blocks; mtbl_file_version ver; } vg_mdv;
+const struct mtbl_metadata *mtbl_reader_metadata(struct mtbl_reader *r) { return (const struct mtbl_metadata *)&vg_mdv; }
+uint64_t mtbl_metadata_count_data_blocks(const struct mtbl_metadata *m) { return vg_mdv.count_data_blocks; }
+uint64_t mtbl_metadata_bytes_data_blocks(const struct mtbl_metadata *m) { return vg_mdv.bytes_data_blocks; }
+uint64_t mtbl_metadata_index_block_offset(const struct mtbl_metadata *m) { return vg_mdv.index_block_offset; }
+mtbl_file_version mtbl_metadata_file_version(const struct mtbl_metadata *m) { return vg_mdv.ver; }
+int printf(const char *fmt, ...) { if (fmt[0] == '%' && fmt[1] == 's' && fmt[2] == ':' && fmt[3] == ' ') { if (fmt[4] == 'O' && fmt[5] == 'K') vg_ok_prints++; if (fmt[4] == 'F') vg_failed_prints++; } return 0; }
+
+void h_verify_file(void)
+{
+	mtbl_file_version in_ver = nondet_bool() ? MTBL_FORMAT_V1 : MTBL_FORMAT_V2;
+	vg_hdr = in_ver == MTBL_FORMAT_V1 ? 8 : 5;
+	unsigned in_nblocks = nondet_u32(); __CPROVER_assume(in_nblocks >= 1 && in_nblocks <= 2);
+	for (unsigned j = 0; j < 2; j++) {
+		uint8_t *p = vg_file + (vg_hdr + PAYLEN) * j;
+		vg_bad[j] = nondet_bool(); vg_crc[j] = nondet_u32();
+		uint32_t stored = nondet_u32(); __CPROVER_assume((stored != vg_crc[j]) == vg_bad[j]);
+		if (in_ver == MTBL_FORMAT_V1) { p[0] = PAYLEN; p[1] = p[2] = p[3] = 0; p[4] = stored; p[5] = stored >> 8; p[6] = stored >> 16; p[7] = stored >> 24; }
+		else { p[0] = PAYLEN; p[1] = stored; p[2] = stored >> 8; p[3] = stored >> 16; p[4] = stored >> 24; }
+	}
+	/* the trailer of a written file is true (C10): data blocks start at offset 0 here, the index follows them */
+	vg_mdv.ver = in_ver; vg_mdv.count_data_blocks = in_nblocks; vg_mdv.bytes_data_blocks = (vg_hdr + PAYLEN) * in_nblocks; vg_mdv.index_block_offset = vg_mdv.bytes_data_blocks;
+	vg_index_bad = nondet_bool(); vg_open_fails = nondet_bool(); vg_reader_refuses = nondet_bool(); vg_fd = nondet_int(); __CPROVER_assume(vg_fd >= 0);
+	bool ok = verify_file("f");
+	VG_REACH("verify_file returns");
+	_Bool any_bad = 0; for (unsigned j = 0; j < 2; j++) if (j < in_nblocks && vg_bad[j]) any_bad = 1;
+	VG_P("C12", !ok || (!vg_index_bad && !any_bad && !vg_open_fails && !vg_reader_refuses), "mtbl_verify never reports a file OK whose index block or any data block does not match its stored checksum");
+	VG_P("C12", ok == (vg_ok_prints == 1) && (vg_ok_prints + vg_failed_prints <= 1), "OK is printed exactly when the file verified; never both verdicts");
+	VG_P("C12", ok || any_bad || vg_index_bad || vg_open_fails || vg_reader_refuses, "an intact file that opens is reported OK");
+	VG_P("C18", vg_reader_live == 0 && vg_maps == 0, "reader and mapping are released");
+}
